@@ -1,11 +1,13 @@
 import IcyVerif.Drv.Loaders
 import IcyVerif.Drv.FontLoad
+import IcyVerif.Drv.TextLoad
 open IcyVerif.Drv
 
 def dispatch (line : String) : String :=
   match line.trimAscii.toString.splitOn " " with
   | "loaders" :: rest => Loaders.handle rest
   | "fontload" :: rest => FontLoad.handle rest
+  | "textload" :: rest => TextLoad.handle rest
   | _ => "bad-op"
 
 partial def loop (h : IO.FS.Stream) (out : IO.FS.Stream) : IO Unit := do
